@@ -182,7 +182,8 @@ def gen_cases(ctx):
     # (c) several hosts: failures, leftovers of one connection in front of the next, route settings
     fails = [('banner', k) for k in ('554', '421', 'mixed', 'garbage', 'empty', 'ml-eof', 'barelf')] + \
             [('ehlo', k) for k in ('helo-bad', 'bad-ext', 'mixed', 'eof', '421')] + \
-            [('st', k) for k in ('454', 'ml-454', 'garbage', 'none')] + [('hs', -104), ('hs', -110), ('verify', 0), ('inject', 'ehlo'), ('tlsehlo', '421'), ('tlsehlo', 'garbage')]
+            [('st', k) for k in ('454', 'ml-454', 'garbage', 'none')] + [('hs', -104), ('hs', -110), ('verify', 0), ('inject', 'ehlo'), ('tlsehlo', '421'), ('tlsehlo', 'garbage'),
+             ('tlsend', 's'), ('tlsend', 'c'), ('tlsend-partial', 's'), ('tlsend-partial', 'c')]
     seconds = [dict(ehlo='plain'), dict(ehlo='tls'), dict(ehlo='none'), dict(ehlo='helo'), dict(ehlo='tls', verified=0, pin='g'), dict(ehlo='tls', inject='ehlo')]
     for what, k in fails:
         for sec in seconds:
@@ -203,7 +204,12 @@ def gen_cases(ctx):
                         kw['inject'] = k
                     elif what == 'tlsehlo':
                         kw['tlsehlo'] = k
-                    first = mkhost(rng, tail=QUIT_REPLY + leftover, ttail=QUIT_REPLY, **kw)
+                    elif what == 'tlsend':          # nothing is said inside TLS: time-out or reset after the upgrade
+                        kw.update(tlsehlo='empty', tend=k, ttail=b'')
+                    elif what == 'tlsend-partial':  # the EHLO reply inside TLS breaks off
+                        kw.update(tlsehlo='ml-eof', tend=k, ttail=b'')
+                    kw.setdefault('ttail', QUIT_REPLY)
+                    first = mkhost(rng, tail=QUIT_REPLY + leftover, **kw)
                     add(case_line([first, mkhost(rng, name=b'mx2.example', **sec)], expect=expect), 'multi-mx')
     # TLSA records of the first name applied to every host / records of the other hosts never asked for
     for t1 in ('none', 'ee', 'pkix', 'ee-bad'):
